@@ -72,6 +72,6 @@ Proof.
   - unfold ok, out1 in H. inversion H; subst. tauto.
   - cbn [reserve] in H. unfold ok in H.
     match type of H with (_, ?e, None) = _ => assert (Hne : e <> [(c, h, SGetEmpty)]) end.
-    { destruct (get_msg _ u); [|cbn; congruence]. cbn. unfold out1. cbn. congruence. }
+    { destruct (get_msg _ u); unfold out1; cbn; congruence. }
     inversion H; subst. split; [intros Hx; contradiction|discriminate].
 Qed.
